@@ -226,12 +226,13 @@ def unit_c12_chains(args):
 
 
 def unit_c13_sig(args):
-    """all C13 programs / integrands / moment-matching / error-clause cases for one signature"""
-    sig, seed, stride, offset = args
+    """C13 programs / integrands / moment-matching / error-clause cases for one signature.  Two strides: whole
+    (signature, rank) leaves are skipped (rank_stride, rotating with the signature index) before anything is generated,
+    and inside a kept leaf every `stride`-th case is run."""
+    sig, sig_index, seed, rank_stride, stride = args
     R = Recorder("C13")
-    rs = np.random.RandomState(seed)
     dim = G.sig_dim(sig)
-    n = offset
+    n = sig_index
 
     def go(label, spec):
         nonlocal n
@@ -241,7 +242,10 @@ def unit_c13_sig(args):
         spec["pseed"] = (seed * 1000 + n) % 4294967291
         R.run(spec, label)
 
-    for rank in [r for r in G.rank_set(dim) if r >= 1]:
+    for r_idx, rank in enumerate([r for r in G.rank_set(dim) if r >= 1]):
+        if (sig_index + r_idx) % rank_stride:
+            continue
+        rs = G.sub_rs(seed, r_idx)
         leaf = G.gen_leaf(rs, sig, rank, blocks=True)
         for label, prog, tensor in G.c13_programs(rs, sig, rank):
             go(label, {"kind": "reduce_program", "leaf": leaf, "program": prog, "tensor": tensor})
@@ -253,8 +257,10 @@ def unit_c13_sig(args):
             if G.sig_batch(sig):
                 for label, t, names in G.c13_mm(rs, sig):
                     go(label, {"kind": "moment_matching", "leaf": leaf, "tensor": t, "names": names})
-    for label, frag in G.c13_deficient(rs, sig):
-        go(label, dict(frag, kind="deficient"))
+    if sig_index % rank_stride == 0:
+        rs = G.sub_rs(seed, 99)
+        for label, frag in G.c13_deficient(rs, sig):
+            go(label, dict(frag, kind="deficient"))
     return R.finish()
 
 
@@ -297,20 +303,20 @@ def unit_c14_tensor(args):
 def unit_c14_gauss(args):
     sig, seed, part, parts = args
     R = Recorder("C14")
-    rs = np.random.RandomState(seed)
     n = 0
-    for label, frag in G.gaussian_sample_specs(rs, sig):
+    for label, frag in G.gaussian_sample_specs(seed, sig, keep=lambda idx: idx % parts == part):
         n += 1
-        if n % parts == part:
-            R.run(_seeded(dict(frag, kind="gaussian_sample"), seed, n), label)
-    for label, frag in G.mc_gaussian_specs(rs, sig):
-        n += 1
-        if n % parts == part:
-            R.run(_seeded(dict(frag, kind="mc_gaussian"), seed, n), label)
-    for label, frag in G.mixture_sample_specs(rs, sig):
-        n += 1
-        if n % parts == part:
-            R.run(_seeded(dict(frag, kind="mixture_sample"), seed, n), label)
+        R.run(_seeded(dict(frag, kind="gaussian_sample"), seed, part * 10000 + n), label)
+    if part == 0:
+        rs = np.random.RandomState(seed)
+        for label, frag in G.mc_gaussian_specs(rs, sig):
+            n += 1
+            R.run(_seeded(dict(frag, kind="mc_gaussian"), seed, part * 10000 + n), label)
+    if part == parts - 1:
+        rs = np.random.RandomState(seed + 1)
+        for label, frag in G.mixture_sample_specs(rs, sig):
+            n += 1
+            R.run(_seeded(dict(frag, kind="mixture_sample"), seed, part * 10000 + n), label)
     return R.finish()
 
 
@@ -403,19 +409,20 @@ def plan_c12(tier, seed):
 def plan_c13(tier, seed):
     rs = np.random.RandomState(seed + 13)
     if tier == "quick":
-        shapes, sizes, max_dim, stride = [(), (2,), (2, 2)], [1, 2, 3], 6, 37
+        shapes, sizes, max_dim, rank_stride, stride = [(), (2,), (2, 2)], [1, 2, 3], 6, 6, 6
     else:
-        shapes, sizes, max_dim, stride = [(), (1,), (2,), (3,), (2, 2)], [1, 2, 3], 7, 17
+        shapes, sizes, max_dim, rank_stride, stride = [(), (1,), (2,), (3,), (2, 2)], [1, 2, 3], 7, 3, 8
     sigs = list(G.signatures(shapes, sizes, max_reals=3, max_ints=2, max_dim=max_dim))
-    units = [("c13_sig", (sig, int(rs.randint(1 << 30)), stride, k % stride)) for k, sig in enumerate(sigs)]
+    units = [("c13_sig", (sig, k + seed, int(rs.randint(1 << 30)), rank_stride, stride)) for k, sig in enumerate(sigs)]
     units.sort(key=lambda u: -(len(u[1][0]) * 10 + G.sig_dim(u[1][0])))  # heavy signatures first (load balance)
     bounds = OrderedDict(
         real_input_shapes=[list(s) for s in shapes], batch_sizes=sizes, max_real_inputs=3, max_batch_inputs=2, max_total_dim=max_dim,
         signatures_enumerated=len(sigs), input_orders="every interleaving of integer and real inputs",
         ranks="{1,dim-1,dim,dim+1,2dim,2dim+1} restricted to rank >= dim of the integrated block (error clause: rank < dim_b and structurally deficient blocks)",
         reduced_subsets="every non-empty subset of the real inputs (contiguous and interleaved), every non-empty subset of the batch inputs",
-        programs="marg, marg+ints, marg;marg, eval;marg, marg;eval, log_normalizer, plate, plate;marg, plate;plate, mixtures t+g with 4 tensor layouts, Integrate(var|affine|gaussian|neg_gaussian|sum_gaussians), moment_matching",
-        case_stride=stride, points_per_evaluation=5,
+        programs="marg, marg+ints, marg;marg, eval;marg, marg;eval, log_normalizer, plate, plate;marg, plate;plate, mixtures t+g with 4 tensor layouts, Integrate(var|affine|gaussian|neg_gaussian|sum_gaussians) with Gaussian and mixture measures, moment_matching",
+        rank_stride=rank_stride, case_stride=stride, points_per_evaluation=5,
+        strides="every signature is visited; of its ranks every rank_stride-th (rotating with the signature index); of the cases of a kept (signature, rank) every case_stride-th",
         nontrivial_rule="the oracle values at the evaluation points are not all equal (for results without inputs: the value is not 0); error-clause cases always count",
     )
     return units, bounds, False
